@@ -1587,6 +1587,23 @@ theorem c16_src_ShardAccount (v : Val) (f : Frag) (he : shardAccount.enc v = som
     SrcBlk.ShardAccount false (f ++ k) = some (Blk.view_ShardAccount v, k) :=
   Blk.refines_ShardAccount.on_encoding v f he hv k
 
+/-- `ValidatorSet.deserialize` (`validators#11`: inline `Hashmap 16 ValidatorDescr` read by `load_hashmap`; `validators_ext#12`:
+    `total_weight` and a `HashmapE 16 ValidatorDescr` read by `load_dict`; `main <= total`, `main >= 1` checked), regenerated from the
+    source: every field with its encoded value, `list` = the dict position ↦ ValidatorDescr of the decoded Patricia tree in key order
+    (`None` for an empty `HashmapE`), exactly the encoded bits and refs consumed.  The dictionary walk is the hand model
+    `Rd.dictWalk` / `Rd.dictWalkInline` proved sound against the spec tree (`c16_model_dict_walk`, `c16_model_dict_walk_inline`). -/
+theorem c16_src_ValidatorSet (v : Val) (f : Frag) (he : validatorSet.enc v = some f) (k : Frag) :
+    SrcBlk.ValidatorSet false (f ++ k) = some (Blk.view_ValidatorSet v, k) :=
+  Blk.refines_ValidatorSet.on_encoding v f he k
+
+/-- the hand model of `Slice.load_hashmap` (`Rd.dictWalkInline`: the Patricia walk started on the slice itself) returns the entries of
+    ANY decoded inline `Hashmap n X` value, in order, and leaves exactly what the spec decoder leaves, given a value reader that
+    refines `X`. -/
+theorem c16_model_dict_walk_inline (X : Codec) (rd : Frag → Rd.R) (w : Val → Val) (hrd : Refines rd X w) (n : Nat) (s : Frag)
+    (tv : Val) (s' : Frag) (h : (hashmap n X).dec s = some (tv, s')) :
+    Rd.dictWalkInline rd n s = some (flattenF w (n + 1) n [] tv, s') :=
+  Blk.dictWalkInline_sound X rd w hrd n s tv s' h
+
 /-- non-vacuity: `account_none$0` followed by a trailer bit is read as `None`, the trailer is left -/
 example : SrcBlk.Account false ⟨[false, true], []⟩ = some (.unit, ⟨[true], []⟩) := rfl
 
